@@ -1,3 +1,6 @@
 import OutrankModel.Model.Wire
+import OutrankModel.Model.Sort
 import OutrankModel.Model.C07
 import OutrankModel.Props.C07
+import OutrankModel.Model.C15
+import OutrankModel.Props.C15
